@@ -119,6 +119,8 @@ class World:
             return rel.chain(self.leaves[c["rhs"]])
         if f == "chainself":
             return rel.chain(rel)
+        if f == "chainbase":
+            return self.leaves["L1"].chain(rel) if c["left"] else rel.chain(self.leaves["L1"])
         if f == "mat":
             return rel.materialized(c["name"])
         if f == "xfer":
